@@ -486,18 +486,6 @@ pub fn valid_model(rng: &mut Rng, sz: Sizes) -> Model {
             if g.rng.chance(1, 5) {
                 c.answers = g.answers();
             }
-            if g.rng.chance(1, 4) {
-                let mut ho = Opts::new();
-                for k in ["interval", "timeout", "healthy_threshold", "unhealthy_threshold"] {
-                    if g.opt() {
-                        ho.insert(k, Tv::I(1 + g.rng.below(60)));
-                    }
-                }
-                if g.opt() {
-                    ho.insert("expected_status", Tv::I(*g.rng.pick(&[0u64, 200, 204])));
-                }
-                c.health_check = Some(((*g.rng.pick(&["/health", "/", "/ready?x=1"])).to_owned(), ho));
-            }
         } else {
             // all frontends of a TCP cluster agree on expect_proxy (documented incompatibility)
             let mut expect: Option<bool> = None;
@@ -569,6 +557,22 @@ pub fn valid_model(rng: &mut Rng, sz: Sizes) -> Model {
                     c.udp = Some((uo, uh));
                 }
             }
+        }
+        // a [health_check] block is cluster-level grammar: HTTP, TCP and UDP-fronted clusters
+            if g.rng.chance(1, 4) {
+            let mut ho = Opts::new();
+            for k in ["interval", "timeout", "healthy_threshold", "unhealthy_threshold"] {
+                if g.opt() {
+                    ho.insert(k, Tv::I(1 + g.rng.below(60)));
+                }
+            }
+            if g.opt() {
+                ho.insert("expected_status", Tv::I(*g.rng.pick(&[0u64, 200, 204])));
+            }
+            c.health_check = Some(((*g.rng.pick(&["/health", "/", "/ready?x=1"])).to_owned(), ho));
+        }
+        if !want_http && g.opt() {
+            c.opts.insert("retry_after", Tv::I(g.rng.below(600)));
         }
         if g.opt() {
             c.opts.insert("load_balancing", Tv::S((*g.rng.pick(LB)).to_owned()));
